@@ -364,6 +364,9 @@ func (c c09child) Exec(op string) string {
 	if len(f) >= 2 && f[0] == "c09.table" {
 		return recoverStr(func() string { return c.table(f[1:]) })
 	}
+	if len(f) == 1 && f[0] == "c09.create" {
+		return recoverStr(c.parkCreate)
+	}
 	if len(f) == 1 && f[0] == "c09.replace" {
 		return recoverStr(c.replace)
 	}
@@ -877,6 +880,164 @@ func (c09child) replace() string {
 	return fmt.Sprintf("stop=%s up=%d/%d leaked=%d %s", res, closed, accepted, leaked, served)
 }
 
+// c09.create   a request has to make a new backend connection; createClient is parked after its last look at quit, holding the connection
+// table's lock, about to publish the connection (pause point upstream.client.checked); Stop is called; 200 ms later createClient goes on.
+// Stop's snapshot of the table must wait for the lock, or the connection published after it is stopped by nobody.
+//
+//	-> stop=<ok|hangs> up=<closed>/<accepted> leaked=<goroutines>
+func (c09child) parkCreate() string {
+	baseG := runtime.NumGoroutine()
+	var mu sync.Mutex
+	accepted, closed := 0, 0
+	var live []net.Conn
+	ln, err := net.Listen("tcp", "127.0.0.1:0")
+	if err != nil {
+		return "sockerr"
+	}
+	defer ln.Close()
+	go func() {
+		for {
+			c, err := ln.Accept()
+			if err != nil {
+				return
+			}
+			mu.Lock()
+			accepted++
+			live = append(live, c)
+			mu.Unlock()
+			go func(c net.Conn) {
+				defer func() {
+					c.Close()
+					mu.Lock()
+					closed++
+					mu.Unlock()
+				}()
+				dec := redis.VerifNewDecoder(c, 4096)
+				for {
+					v, err := dec.Decode()
+					if err != nil {
+						return
+					}
+					rep := "-ERR not now\r\n"
+					if len(v.Array) > 0 && strings.EqualFold(string(v.Array[0].Text), "get") {
+						rep = "$1\r\nv\r\n"
+					} else if len(v.Array) > 0 && strings.EqualFold(string(v.Array[0].Text), "readonly") {
+						rep = "+OK\r\n"
+					}
+					if _, err := c.Write([]byte(rep)); err != nil {
+						return
+					}
+				}
+			}(c)
+		}
+	}()
+	reached, release := make(chan struct{}), make(chan struct{})
+	var once sync.Once
+	armed := false
+	redis.VerifSetPause(func(point string, obj interface{}) {
+		if point != "upstream.client.checked" {
+			return
+		}
+		mu.Lock()
+		a := armed
+		mu.Unlock()
+		if !a {
+			return
+		}
+		parked := false
+		once.Do(func() { parked = true; close(reached) })
+		if parked {
+			<-release
+		}
+	})
+	defer redis.VerifSetPause(nil)
+	ct := time.Second
+	cfg := &service.Config{
+		Listener:        &service.Listener{Address: &common.Address{Ip: "127.0.0.1", Port: 0}},
+		ConnectTimeout:  &ct,
+		Protocol:        protocol.Redis,
+		ProtocolOptions: &service.Config_RedisOption{RedisOption: &protocol.RedisOption{ReadStrategy: pbredis.ReadStrategy_MASTER}},
+	}
+	c09seq++
+	p, err := proc.New(fmt.Sprintf("verif-c09q-%d", c09seq), cfg, []*host.Host{host.New(ln.Addr().String())})
+	if err != nil {
+		return "procerr"
+	}
+	defer hx.DropScopes("service." + p.Name() + ".")
+	if err := p.Start(); err != nil {
+		return "procerr"
+	}
+	time.Sleep(2 * time.Millisecond)
+	for i := 0; i < 400 && p.Address() == ""; i++ {
+		time.Sleep(time.Millisecond)
+	}
+	cl, err := hx.DialClient(p.Address())
+	if err != nil {
+		p.Stop()
+		return "sockerr"
+	}
+	defer cl.C.Close()
+	get := func() bool {
+		cl.C.SetDeadline(time.Now().Add(2 * time.Second))
+		v, err := cl.Do([]byte("get"), []byte("k"))
+		return err == nil && string(v.Text) == "v"
+	}
+	if !get() {
+		p.Stop()
+		return "setup-failed"
+	}
+	// the node drops the connection: the next request has to make a new one
+	mu.Lock()
+	cs := live
+	live = nil
+	mu.Unlock()
+	for _, c := range cs {
+		c.Close()
+	}
+	time.Sleep(60 * time.Millisecond)
+	mu.Lock()
+	armed = true
+	mu.Unlock()
+	cl.C.SetDeadline(time.Now().Add(3 * time.Second))
+	go cl.Write([]byte("get"), []byte("k"))
+	select {
+	case <-reached:
+	case <-time.After(3 * time.Second):
+		close(release)
+		p.Stop()
+		return "not-parked"
+	}
+	// createClient holds the table's lock, has seen quit open, and is about to publish the connection: Stop
+	res := "hangs"
+	stopDone := make(chan struct{})
+	go func() { p.Stop(); close(stopDone) }()
+	time.Sleep(200 * time.Millisecond)
+	close(release)
+	select {
+	case <-stopDone:
+		res = "ok"
+	case <-time.After(2500 * time.Millisecond):
+	}
+	cl.C.Close()
+	leaked := 0
+	for i := 0; i < 150; i++ {
+		mu.Lock()
+		a, c := accepted, closed
+		mu.Unlock()
+		leaked = runtime.NumGoroutine() - baseG - 1
+		if a == c && leaked <= 0 {
+			break
+		}
+		time.Sleep(10 * time.Millisecond)
+	}
+	if leaked < 0 {
+		leaked = 0
+	}
+	mu.Lock()
+	defer mu.Unlock()
+	return fmt.Sprintf("stop=%s up=%d/%d leaked=%d", res, closed, accepted, leaked)
+}
+
 // c09.table <tok>…   the connection table of a Redis processor in front of one node, driven through its public methods:
 //
 //	g  a GET (it makes a connection if the table holds none)         L  the node closes the connections it has (they end by themselves)
@@ -1186,6 +1347,7 @@ func (c *c09) Gen(r *hx.Run) {
 			r.Do("c09.redir "+m, true, "redir-full-queue")
 		}
 		r.Do("c09.replace", true, "hosts-replaced-while-a-connection-ends")
+		r.Do("c09.create", true, "stop-while-a-connection-is-being-published")
 		// random walks over the connection table
 		for w := 0; w < r.N(4, 12); w++ {
 			var tk []string
